@@ -133,7 +133,7 @@ def gen_plan(seed: int, tier: str) -> dict:
     if mode == "ble":
         ops = []
         for _ in range(r.randint(3, 10)):
-            ops.append({"op": r.choice(["get", "get", "put", "put", "disconnect", "cancel_get", "replay_fragment", "corrupt_fragment"]), "n": r.choice([1, 2, 3]), "vlen": r.choice([1, 10, 150, 400]),
+            ops.append({"op": r.choice(["get", "get", "put", "put", "disconnect", "cancel_get", "replay_fragment", "corrupt_fragment", "close_dead"]), "n": r.choice([1, 2, 3]), "vlen": r.choice([1, 10, 150, 400]),
                         "cancel_after": r.choice([0.0, 0.004, 0.011, 0.03])})
         return {"mode": "ble", "ops": ops, "mtu": r.choice([100, 247]), "drop_at": r.choice([None, None, r.randrange(30, 150)]), "fail_p": r.choice([0, 0, 0.02])}
     ops = []
@@ -241,6 +241,26 @@ def execute_ble(plan, ch):
                     link.drop("op")
                     state["faults"] += 1
                     await asyncio.sleep(0.01)
+                elif kind == "close_dead":
+                    # the application closes the pairing while the Bluetooth backend is dead (disconnect() raises, no callback), then
+                    # uses it again: the new link has to be pair-verified before anything is sealed - the accessory must not see
+                    # traffic it cannot make sense of
+                    link.dead_disconnect = True
+                    try:
+                        await p.close()
+                    except Exception:  # noqa: BLE001
+                        pass
+                    link.dead_disconnect = False
+                    errs0, drops0 = len(acc.protocol_errors), link.drops
+                    try:
+                        await p.get_characteristics(ids)
+                    except Exception as e:  # noqa: BLE001
+                        ctx.probe("ble_get_after_dead_close_raised_" + type(e).__name__)
+                    ctx.obligations += 1
+                    if len(acc.protocol_errors) > errs0 and link.drops == drops0:
+                        ctx.violate("ble.traffic-the-accessory-cannot-read-after-close", "",
+                                    f"after close() on a dead backend the next request reached the accessory as {acc.protocol_errors[errs0:][:2]}: "
+                                    f"the new link was used without a pair-verify of its own (stale session keys)")
                 elif kind == "cancel_get":
                     t = loop.create_task(p.get_characteristics(ids))
                     await asyncio.sleep(op["cancel_after"])
